@@ -542,6 +542,27 @@ def noAngleB (s : Str) : Bool := s.all fun c => c != '<' && c != '>'
 def clsOkB (c : MCls) : Bool :=
   safeB c.name && noAngleB c.name && c.attrs.all fun a => safeB a.name && safeB a.clsName && safeB a.mult
 
+/-- the class table is closed: every class an attribute (`attr.cls`) or an `inh_by` entry points to
+is in the table (what `get_unified_classes` builds: both are looked up in `new_classes`) -/
+def mmClosedB (all : List MCls) : Bool :=
+  all.all fun c =>
+    (c.attrs.all fun a => (findCls all a.clsId).isSome) && c.inhBy.all fun i => (findCls all i).isSome
+
+/-- the ids (`id(cls)`) identify the classes -/
+def distinctB : List Nat → Bool
+  | [] => true
+  | x :: xs => !xs.contains x && distinctB xs
+
+def mmIdsDistinctB (all : List MCls) : Bool := distinctB (all.map (·.id))
+
+/-- no attribute of a walked class (fqn not in `allNames`) points to a class outside the walk that is
+not a match rule (in textX: no attribute refers to `OBJECT`) — then no class is rendered twice -/
+def noOuterClassB (all : List MCls) (allNames : List Str) : Bool :=
+  (all.filter fun c => !allNames.contains c.fqn).all fun c => c.attrs.all fun a =>
+    match findCls all a.clsId with
+    | none => true
+    | some d => !allNames.contains d.fqn || decide (d.typ = .match)
+
 def nameOkB (n : Str) : Bool := n.all fun c => c != '\n' && c != ' ' && c != '{' && c != '}'
 
 def pclsOkB (c : MCls) : Bool :=
